@@ -1,50 +1,53 @@
-import Zlink.Proofs.IdlLex
+import Zlink.Proofs.IdlIfaceRT
 /-! # C14 — Rendering an interface description and parsing it back is the identity
 
 Models: `Zlink/Model/IdlRender.lean` (the `Display` impls) and `Zlink/Model/Idl.lean` (the parser).
 
-Status: the comment layer is proved; the full statement is kept as `C14_statement` and is, so far,
-checked by the correspondence run (every generated tree: real `Display` text = model text, real parse =
-model parse = original tree, re-rendering reproduces the text) and on kernel-evaluated examples. Known
-finding: an enum with a commented variant renders in a multi-line form without commas that the parser
-rejects (pinned by four existing unit tests). -/
+Status: **proved** for every well-formed description without commented enum variants
+(`C14_parse_render`, `C14_render_fixpoint`: unbounded in nesting depth, numbers of members, fields,
+variants and comments). The excluded class is exactly the known finding: an enum with a commented
+variant renders in a multi-line form without commas that the parser rejects (pinned by four existing unit
+tests); `C14_commented_variant_counterexample` proves that the model shares that behaviour. The
+correspondence run ties the two models to the code (real `Display` text = model text, real parse = model
+parse). Not covered by a theorem: the JSON string escaping of the GetInterfaceDescription exchange. -/
 namespace C14
 open Idl SpecIdl
-
-theorem takeWhile_ne_nl (c rest : In) (hc : c.contains 10 = false) :
-    (c ++ 10 :: rest).takeWhile (· != 10) = c := by
-  induction c with
-  | nil => simp
-  | cons a t ih =>
-    simp only [List.contains_cons, Bool.or_eq_false_iff] at hc
-    have ha : (a != 10) = true := by
-      have := hc.1
-      simp only [beq_eq_false_iff_ne, ne_eq] at this
-      simp only [bne_iff_ne, ne_eq]
-      exact fun e => this e.symm
-    simp [List.takeWhile_cons, ha, ih hc.2]
 
 /-- **Comments round-trip**: a rendered comment line is read back as exactly its content, and the
     parser stops right at the end of the line. -/
 theorem C14_comment_roundtrip (c rest : In) (hok : commentOK c = true) :
-    commentDef (renderComment c ++ 10 :: rest) = .ok c (10 :: rest) := by
-  simp only [commentOK, Bool.and_eq_true, Bool.not_eq_true'] at hok
-  obtain ⟨hnl, hlead⟩ := hok
-  have hdrop : (c ++ 10 :: rest).dropWhile (fun x => x == 32 || x == 9) = c ++ 10 :: rest := by
-    cases c with
-    | nil => simp [List.dropWhile_cons]
-    | cons a t =>
-      have : (a == 32 || a == 9) = false := by
-        by_cases h1 : a = 32
-        · subst h1; simp at hlead
-        · by_cases h2 : a = 9
-          · subst h2; simp at hlead
-          · simp [h1, h2]
-      simp [List.dropWhile_cons, this]
-  simp only [renderComment, commentDef, List.cons_append, List.nil_append, List.dropWhile_cons, beq_self_eq_true,
-    Bool.true_or, if_true]
-  rw [hdrop, takeWhile_ne_nl c rest hnl]
-  simp
+    commentDef (renderComment c ++ 10 :: rest) = .ok c (10 :: rest) := commentDef_render c rest hok
+
+/-- no custom enum of the description has a commented variant -/
+def noVariantComments (a : Iface) : Bool :=
+  a.types.all fun t => match t with | .enm _ vs _ => vs.all (fun v => v.2.isEmpty) | _ => true
+
+/-- without commented variants the `Display` text is the reference text of C13 -/
+theorem renderIface_eq_refText (a : Iface) (h : noVariantComments a = true) : renderIface a = refText a := by
+  have : a.types.flatMap (fun t => ([10, 10] : In) ++ renderCT t) = a.types.flatMap (fun t => ([10, 10] : In) ++ refCT t) := by
+    have hall : ∀ t ∈ a.types, renderCT t = refCT t := by
+      intro t ht
+      have := List.all_eq_true.mp h t ht
+      exact renderCT_eq_refCT t (by cases t <;> simpa using this)
+    generalize a.types = ts at hall
+    induction ts with
+    | nil => rfl
+    | cons t r ih =>
+      rw [List.flatMap_cons, List.flatMap_cons, hall t (by simp), ih (fun x hx => hall x (by simp [hx]))]
+  simp only [renderIface, refText, this]
+
+/-- **Render ∘ parse is the identity** (unbounded): every well-formed description without commented
+    enum variants is recovered exactly from its `Display` text. -/
+theorem C14_parse_render (a : Iface) (hok : ifaceOK a = true) (hvi : noVCI a = true)
+    (hvc : noVariantComments a = true) : parseInterface (renderIface a) = .ok a := by
+  rw [renderIface_eq_refText a hvc]
+  exact parseInterface_ref a hok hvi
+
+/-- **Rendering the parsed result reproduces the text**, comments included. -/
+theorem C14_render_fixpoint (a : Iface) (hok : ifaceOK a = true) (hvi : noVCI a = true)
+    (hvc : noVariantComments a = true) :
+    ∃ b, parseInterface (renderIface a) = .ok b ∧ renderIface b = renderIface a :=
+  ⟨a, C14_parse_render a hok hvi hvc, rfl⟩
 
 /-- The full statement (kept visible): every well-formed description without commented enum variants
     is recovered from its rendering, and re-rendering reproduces the text. -/
@@ -74,6 +77,9 @@ def tree : Iface :=
     errors := [⟨[66, 97, 100], [([119, 104, 121], .enum [([112], []), ([113], [])], [])], []⟩] }
 example : ifaceOK tree = true := by decide +kernel
 example : roundTrips tree = true := by decide +kernel
+/-- the theorem applied to the example tree (its hypotheses are satisfiable) -/
+example : parseInterface (renderIface tree) = .ok tree :=
+  C14_parse_render tree (by decide +kernel) (by decide +kernel) (by decide +kernel)
 example : commentOK [116, 114, 32, 32] = true := by decide
 end Example
 end C14
